@@ -56,6 +56,7 @@ type Prog struct {
 	GenOut  string // stderr of the failing thriftrw run
 	BuildOK bool
 	Build   string // compiler diagnostics attributed to this program
+	Moved   string // where the output tree went after it failed to build
 }
 
 type Batch struct {
@@ -180,6 +181,9 @@ func Generate(r *core.Run, thriftrw string, name string, spec Spec) *Batch {
 
 // OutDir is the directory the CLI wrote program pr to.
 func (b *Batch) OutDir(pr *Prog) string {
+	if pr.Moved != "" {
+		return pr.Moved
+	}
 	return filepath.Join(b.Dir, "mod", fmt.Sprintf("p%d", pr.Index))
 }
 
@@ -263,40 +267,86 @@ func (b *Batch) InitModule() {
 	os.WriteFile(filepath.Join(b.Dir, "mod", "go.sum"), sum, 0o644)
 }
 
+// Unattributed marks build output that failed without naming any program.
+const Unattributed = "UNATTRIBUTED BUILD FAILURE\n"
+
+var diagLineRe = regexp.MustCompile(`(?m)^(?:\./)?p(\d+)/[^\s:]+:\d+(?::\d+)?: .*$`)
+
 // BuildAll runs `go build ./...` over the module and attributes diagnostics
-// to programs by import path. It returns the raw output too.
+// to programs by import path (type errors come in "# pkg" blocks) or by file
+// path (syntax and other load errors come as bare lines, and then NOTHING else
+// is compiled). Programs with diagnostics are moved out of the module and the
+// build is repeated until what remains builds, so one broken package cannot
+// hide the diagnostics of the others. It returns the raw output of all rounds;
+// a failure that names no program is prefixed with Unattributed.
 func (b *Batch) BuildAll(extra ...string) (string, error) {
 	b.InitModule()
-	args := append([]string{"build"}, extra...)
-	args = append(args, "./...")
-	cmd := exec.Command("go", args...)
-	cmd.Dir = filepath.Join(b.Dir, "mod")
-	cmd.Env = append(os.Environ(), "GOFLAGS=-mod=mod")
-	out, err := cmd.CombinedOutput()
-	text := string(out)
 	for _, pr := range b.Progs {
 		pr.BuildOK = pr.GenOK
 	}
-	// split into blocks by "# pkg" headers
-	idx := pkgHeaderRe.FindAllStringSubmatchIndex(text, -1)
-	for k, m := range idx {
-		end := len(text)
-		if k+1 < len(idx) {
-			end = idx[k+1][0]
-		}
-		block := text[m[0]:end]
-		var n uint64
-		fmt.Sscan(text[m[4]:m[5]], &n)
-		for _, pr := range b.Progs {
-			if pr.Index == n {
+	byIndex := map[uint64]*Prog{}
+	for _, pr := range b.Progs {
+		byIndex[pr.Index] = pr
+	}
+	all := ""
+	for round := 0; ; round++ {
+		args := append([]string{"build"}, extra...)
+		args = append(args, "./...")
+		cmd := exec.Command("go", args...)
+		cmd.Dir = filepath.Join(b.Dir, "mod")
+		cmd.Env = append(os.Environ(), "GOFLAGS=-mod=mod")
+		out, err := cmd.CombinedOutput()
+		text := string(out)
+		all += text
+		blamed := map[uint64]bool{}
+		add := func(n uint64, block string) {
+			if pr := byIndex[n]; pr != nil {
 				pr.BuildOK = false
+				blamed[n] = true
 				if len(pr.Build) < 6000 {
 					pr.Build += block
 				}
 			}
 		}
+		// "# pkg" blocks
+		idx := pkgHeaderRe.FindAllStringSubmatchIndex(text, -1)
+		covered := make([]bool, len(text)+1)
+		for k, m := range idx {
+			end := len(text)
+			if k+1 < len(idx) {
+				end = idx[k+1][0]
+			}
+			var n uint64
+			fmt.Sscan(text[m[4]:m[5]], &n)
+			add(n, text[m[0]:end])
+			for i := m[0]; i < end; i++ {
+				covered[i] = true
+			}
+		}
+		// bare diagnostic lines outside any block
+		for _, m := range diagLineRe.FindAllStringSubmatchIndex(text, -1) {
+			if covered[m[0]] {
+				continue
+			}
+			var n uint64
+			fmt.Sscan(text[m[2]:m[3]], &n)
+			add(n, text[m[0]:m[1]]+"\n")
+		}
+		if err == nil {
+			return all, nil
+		}
+		if len(blamed) == 0 || round >= 12 {
+			return Unattributed + all, err
+		}
+		for n := range blamed {
+			pr := byIndex[n]
+			dst := filepath.Join(b.Dir, "broken", fmt.Sprintf("p%d", n))
+			os.MkdirAll(filepath.Dir(dst), 0o755)
+			if os.Rename(b.OutDir(pr), dst) == nil {
+				pr.Moved = dst
+			}
+		}
 	}
-	return text, err
 }
 
 // Summary helpers ---------------------------------------------------------------
